@@ -273,6 +273,31 @@ C11_ServedByRealLeader ==
 C14_NoPanic == A.panic = ""
 
 ----------------------------------------------------------------------------
+(* C15 Convergence after faults stop.  The harness appends a fault-free suffix  *)
+(* (all members of the committed configuration running, removed nodes stopped,  *)
+(* every message delivered, snapshot outcomes reported, K rounds of ticks) and  *)
+(* emits "Stabilized" events; the formula is evaluated on that final state.     *)
+LeadersUp == {i \in Node : Up(i) /\ node[i].role = "L"}
+C15_Converged ==
+  (A.name = "Stabilized" /\ A.ok /\ ~hist.cfold.twoVoterShrink) =>
+    /\ Cardinality(LeadersUp) = 1
+    /\ LET l == CHOOSE i \in LeadersUp : TRUE
+           n == node[l]
+           last == LastIndex(n, disk[l])
+       IN  /\ n.commit = last /\ n.applied = last
+           /\ ~n.cfg.autoLeave /\ n.transferee = 0
+           /\ \A j \in Members(n.cfg) :
+                 /\ j \in Node /\ Up(j)
+                 /\ node[j].term = n.term
+                 /\ LastIndex(node[j], disk[j]) = last /\ LastTerm(node[j], disk[j]) = LastTerm(n, disk[l])
+                 /\ node[j].commit = last /\ node[j].applied = last
+                 /\ node[j].uents = <<>> /\ ~node[j].usnap.has
+                 /\ app[j].phase = "idle" /\ app[j].appendQ = <<>> /\ app[j].applyQ = <<>>
+                 /\ node[j].cfg = n.cfg
+           /\ \A k \in DOMAIN n.prs :
+                 n.prs[k].id # l => (n.prs[k].state = "Replicate" /\ n.prs[k].match = last /\ ~n.prs[k].paused)
+
+----------------------------------------------------------------------------
 (* C16 Flow control and size limits                                           *)
 C16_MsgSizeBound ==
   ActUp => \A k \in DOMAIN NewMsgs :
@@ -371,6 +396,7 @@ AllInvariants ==
   /\ C10_ConfigIsFold /\ C10_OnePending /\ C10_NoCampaignUnapplied /\ C10_AutoLeave
   /\ C11_ReadIndexFresh /\ C11_ServedByRealLeader
   /\ C14_NoPanic
+  /\ C15_Converged
   /\ C16_MsgSizeBound /\ C16_InflightBound /\ C16_NoAppendDuringSnapshot /\ C16_UncommittedBound /\ C16_DropIffOver
   /\ C17_PreVoteBeforeTerm /\ C17_PreVoteNoStateChange /\ C17_LeaseHolds /\ C17_CheckQuorumStepDown
   /\ C19_SameOutputs
